@@ -110,10 +110,29 @@ def lake_build(targets):
     return r.returncode == 0, r.stdout
 
 
-def theorem_names(prop_file, namespace):
-    """Names of the theorems declared in a Props file (inside `namespace`)."""
+def theorem_names(prop_file, namespace=None):
+    """Fully qualified names of the (non-private) theorems declared in a Lean file, following its
+    `namespace … / end …` nesting. `namespace` is only a fallback for a file without any."""
     text = strip_comments(open(prop_file, encoding="utf-8").read())
-    return [f"{namespace}.{m.group(1)}" for m in re.finditer(r"^\s*theorem\s+([^\s\(\{\[:]+)", text, re.M)]
+    stack, names = [], []
+    for line in text.splitlines():
+        m = re.match(r"^\s*namespace\s+(\S+)", line)
+        if m:
+            stack.append(m.group(1))
+            continue
+        m = re.match(r"^\s*end\s+(\S+)", line)
+        if m and stack and stack[-1] == m.group(1):
+            stack.pop()
+            continue
+        m = re.match(r"^\s*(?:@\[[^\]]*\]\s*)?(?:protected\s+)?theorem\s+([^\s\(\{\[:]+)", line)
+        if m:
+            prefix = ".".join(stack) if stack else (namespace or "")
+            name = m.group(1)
+            if name.startswith("_root_."):
+                names.append(name[len("_root_."):])
+            else:
+                names.append((prefix + "." if prefix else "") + name)
+    return names
 
 
 def audit_axioms(module, names, tag):
